@@ -28,6 +28,10 @@ pub struct Bcast {
     pub api: Api,
     /// Indices whose task call panics.
     pub panics: Vec<usize>,
+    /// `false`: issued by the scenario's main thread; `true`: issued by a
+    /// helper thread spawned (and joined) for this one broadcast — the pool
+    /// is used by different threads one after the other.
+    pub helper_caller: bool,
 }
 
 #[derive(Clone, Debug, PartialEq, Eq)]
@@ -61,8 +65,9 @@ pub struct FrameLiveness {
 
 #[derive(Default)]
 struct FrameSt {
-    /// Current broadcast.
+    /// Current broadcast and the thread that issued it.
     cur: u32,
+    caller: usize,
     n: u32,
     ended: u32,
     /// Per broadcast: has the caller come back from it?
@@ -96,17 +101,18 @@ impl dsim::Monitor for FrameLiveness {
             Ev::User(UserEv::BroadcastBegin { j, n }) => {
                 st.grow(j);
                 st.cur = j;
+                st.caller = t;
                 st.n = n;
                 st.ended = 0;
             }
-            Ev::User(UserEv::TaskBegin { j, .. }) if t != 0 => st.serving[t] = Some(j),
+            Ev::User(UserEv::TaskBegin { j, .. }) if t != st.caller => st.serving[t] = Some(j),
             Ev::User(UserEv::TaskEnd { j, .. } | UserEv::TaskPanic { j, .. }) if j == st.cur => {
                 st.ended += 1
             }
             Ev::Recv { .. } | Ev::RecvErr { .. } | Ev::Exit => st.serving[t] = None,
             Ev::Atomic { op, new, addr, .. } => {
                 // Attribute the operation to the broadcast its thread works for.
-                let j = if t == 0 { Some(st.cur) } else { st.serving[t] };
+                let j = if t == st.caller { Some(st.cur) } else { st.serving[t] };
                 if let Some(j) = j {
                     st.grow(j);
                     let j = j as usize;
@@ -114,7 +120,7 @@ impl dsim::Monitor for FrameLiveness {
                         if st.shared_addr[j].is_none() {
                             st.shared_addr[j] = Some(addr);
                         }
-                        if op == AtomOp::Rmw && new == 0 && t != 0 {
+                        if op == AtomOp::Rmw && new == 0 && t != st.caller {
                             st.zero[j] = Some(e.seq);
                         }
                     }
@@ -140,9 +146,6 @@ impl dsim::Monitor for FrameLiveness {
 
     fn pre_touch(&self, tid: usize, addr: usize) -> Option<String> {
         let st = self.st.lock().unwrap();
-        if tid == 0 {
-            return None;
-        }
         let j = st.serving[tid]? as usize;
         let returned = *st.returned.get(j)?;
         let zero = *st.zero.get(j)?;
@@ -169,6 +172,69 @@ fn value_of(j: usize, i: usize) -> u64 {
     0xD1_0000_0000 + (j as u64) * 1000 + i as u64
 }
 
+/// Issues broadcast `j` of the scenario on the calling simulated thread.
+fn one_broadcast(
+    pool: &divan::verif::Pool,
+    scn: &PoolScn,
+    j: usize,
+    out: &Mutex<PoolOutcome>,
+    reused: &Mutex<Vec<Option<u64>>>,
+) {
+    let b = &scn.broadcasts[j];
+    let n = b.n;
+    let cells: Vec<AtomicU64> = (0..=n).map(|_| AtomicU64::new(0)).collect();
+    let task = |i: usize| -> u64 {
+        probe::event(UserEv::TaskBegin { j: j as u32, i: i as u32 });
+        if let Some(c) = cells.get(i) {
+            c.store(value_of(j, i), Ordering::Relaxed);
+        }
+        if b.panics.contains(&i) {
+            probe::fault_fired("panic_in_task");
+            probe::event(UserEv::TaskPanic { j: j as u32, i: i as u32 });
+            std::panic::resume_unwind(Box::new(InjectedPanic));
+        }
+        probe::event(UserEv::TaskEnd { j: j as u32, i: i as u32 });
+        value_of(j, i)
+    };
+    probe::event(UserEv::BroadcastBegin { j: j as u32, n: n as u32 });
+    let results: Vec<Option<u64>> = match b.api {
+        Api::Broadcast => {
+            pool.broadcast(n, |i| {
+                task(i);
+            });
+            probe::event(UserEv::BroadcastReturn { j: j as u32 });
+            cells
+                .iter()
+                .map(|c| match c.load(Ordering::Relaxed) {
+                    0 => None,
+                    v => Some(v),
+                })
+                .collect()
+        }
+        Api::ParExtend => {
+            // Pre-existing elements must be left alone.
+            let mut guard = reused.lock().unwrap();
+            let vec = &mut *guard;
+            vec.clear();
+            vec.push(Some(7));
+            vec.push(None);
+            pool.par_extend(vec, n, task);
+            probe::event(UserEv::BroadcastReturn { j: j as u32 });
+            if vec.len() < 2 || vec[0] != Some(7) || vec[1].is_some() {
+                probe::fail(format!(
+                    "par_extend disturbed existing elements: {:?}",
+                    &vec[..vec.len().min(2)]
+                ));
+            }
+            vec[2..].to_vec()
+        }
+    };
+    let aux = pool.aux_thread_count();
+    let mut o = out.lock().unwrap();
+    o.results.push(results);
+    o.aux_counts.push(aux);
+}
+
 impl PoolScn {
     pub fn generate(rng: &mut Rng, prop: Prop, tier: Tier) -> Self {
         let thorough = tier == Tier::Thorough;
@@ -184,6 +250,7 @@ impl PoolScn {
         };
         let k = rng.range(1, max_k) as usize;
         let panic_permille = *rng.pick(&[0u64, 0, 0, 100, 300, 1000]);
+        let helper_permille = *rng.pick(&[0u64, 0, 0, 250, 500]);
         // C07 histories grow and shrink.
         let mut broadcasts = Vec::with_capacity(k);
         for _ in 0..k {
@@ -194,7 +261,8 @@ impl PoolScn {
             };
             let api = if rng.chance(1, 2) { Api::Broadcast } else { Api::ParExtend };
             let panics = (0..=n).filter(|_| rng.chance(panic_permille, 1000)).collect();
-            broadcasts.push(Bcast { n, api, panics });
+            let helper_caller = helper_permille > 0 && rng.chance(helper_permille, 1000);
+            broadcasts.push(Bcast { n, api, panics, helper_caller });
         }
         let mut spurious_parks = Vec::new();
         let n_spurious = *rng.pick(&[0u32, 0, 0, 1, 1, 2]);
@@ -218,6 +286,7 @@ impl PoolScn {
                 "n": b.n,
                 "api": match b.api { Api::Broadcast => "broadcast", Api::ParExtend => "par_extend" },
                 "panics": b.panics,
+                "helper_caller": b.helper_caller,
             })).collect::<Vec<_>>(),
             "spurious_parks": self.spurious_parks.iter().map(|&(t, k)| json!([t, k])).collect::<Vec<_>>(),
         })
@@ -240,6 +309,7 @@ impl PoolScn {
                         .iter()
                         .map(|x| x.as_u64().map(|x| x as usize))
                         .collect::<Option<Vec<_>>>()?,
+                    helper_caller: b["helper_caller"].as_bool().unwrap_or(false),
                 })
             })
             .collect::<Option<Vec<_>>>()?;
@@ -256,7 +326,7 @@ impl PoolScn {
         let mut h = dsim::event::Fnv::default();
         for b in &self.broadcasts {
             h.u64(b.n as u64);
-            h.u64(b.api as u64);
+            h.u64(b.api as u64 | (b.helper_caller as u64) << 4);
             for p in &b.panics {
                 h.u64(*p as u64 + 1);
             }
@@ -288,72 +358,32 @@ impl PoolScn {
     }
 
     pub fn execute(&self, cfg: RunConfig) -> (RunResult, PoolOutcome) {
-        let scn = self.clone();
+        let scn = Arc::new(self.clone());
         let out: Arc<Mutex<PoolOutcome>> = Arc::new(Mutex::new(PoolOutcome::default()));
         let out2 = out.clone();
         let result = dsim::run(
             cfg,
             Box::new(move || {
-                let pool = divan::verif::Pool::new();
+                let pool = Arc::new(divan::verif::Pool::new());
                 // One result buffer reused across broadcasts (cleared in
                 // between), the way the sampling loop reuses `raw_samples`:
                 // a slot that `par_extend` fails to reset shows a stale value.
-                let mut reused: Vec<Option<u64>> = Vec::new();
-                for (j, b) in scn.broadcasts.iter().enumerate() {
-                    let n = b.n;
-                    let cells: Vec<AtomicU64> = (0..=n).map(|_| AtomicU64::new(0)).collect();
-                    let task = |i: usize| -> u64 {
-                        probe::event(UserEv::TaskBegin { j: j as u32, i: i as u32 });
-                        if let Some(c) = cells.get(i) {
-                            c.store(value_of(j, i), Ordering::Relaxed);
-                        }
-                        if b.panics.contains(&i) {
-                            probe::fault_fired("panic_in_task");
-                            probe::event(UserEv::TaskPanic { j: j as u32, i: i as u32 });
-                            std::panic::resume_unwind(Box::new(InjectedPanic));
-                        }
-                        probe::event(UserEv::TaskEnd { j: j as u32, i: i as u32 });
-                        value_of(j, i)
-                    };
-                    probe::event(UserEv::BroadcastBegin { j: j as u32, n: n as u32 });
-                    let results: Vec<Option<u64>> = match b.api {
-                        Api::Broadcast => {
-                            pool.broadcast(n, |i| {
-                                task(i);
-                            });
-                            probe::event(UserEv::BroadcastReturn { j: j as u32 });
-                            cells
-                                .iter()
-                                .map(|c| match c.load(Ordering::Relaxed) {
-                                    0 => None,
-                                    v => Some(v),
-                                })
-                                .collect()
-                        }
-                        Api::ParExtend => {
-                            // Pre-existing elements must be left alone.
-                            let vec = &mut reused;
-                            vec.clear();
-                            vec.push(Some(7));
-                            vec.push(None);
-                            pool.par_extend(vec, n, task);
-                            probe::event(UserEv::BroadcastReturn { j: j as u32 });
-                            if vec.len() < 2 || vec[0] != Some(7) || vec[1].is_some() {
-                                probe::fail(format!(
-                                    "par_extend disturbed existing elements: {:?}",
-                                    &vec[..vec.len().min(2)]
-                                ));
-                            }
-                            vec[2..].to_vec()
-                        }
-                    };
-                    let aux = pool.aux_thread_count();
-                    let mut o = out2.lock().unwrap();
-                    o.results.push(results);
-                    o.aux_counts.push(aux);
+                let reused: Arc<Mutex<Vec<Option<u64>>>> = Arc::new(Mutex::new(Vec::new()));
+                for j in 0..scn.broadcasts.len() {
+                    let (pool2, scn2, out3, reused2) = (pool.clone(), scn.clone(), out2.clone(), reused.clone());
+                    let one = move || one_broadcast(&pool2, &scn2, j, &out3, &reused2);
+                    if scn.broadcasts[j].helper_caller {
+                        // Another thread uses the pool for this broadcast.
+                        let _ = dsim::shim::thread::spawn(one).join();
+                    } else {
+                        one();
+                    }
                 }
                 probe::event(UserEv::PoolDrop);
-                drop(pool);
+                match Arc::try_unwrap(pool) {
+                    Ok(p) => drop(p),
+                    Err(_) => probe::fail("harness: pool still shared at drop".into()),
+                }
                 probe::event(UserEv::PoolDropped);
             }),
         );
@@ -397,6 +427,11 @@ impl PoolScn {
                 s.broadcasts[j].api = Api::Broadcast;
                 c.push(s);
             }
+            if b.helper_caller {
+                let mut s = self.clone();
+                s.broadcasts[j].helper_caller = false;
+                c.push(s);
+            }
         }
         c
     }
@@ -409,14 +444,18 @@ impl PoolScn {
 struct Window {
     begin: u32,
     ret: Option<u32>,
+    /// The thread that issued the broadcast.
+    caller: u8,
 }
 
 fn windows(events: &[Event], k: usize) -> Vec<Window> {
-    let mut w: Vec<Window> = (0..k).map(|_| Window { begin: u32::MAX, ret: None }).collect();
+    let mut w: Vec<Window> =
+        (0..k).map(|_| Window { begin: u32::MAX, ret: None, caller: 0 }).collect();
     for e in events {
         match e.kind {
             Ev::User(UserEv::BroadcastBegin { j, .. }) if (j as usize) < k => {
-                w[j as usize].begin = e.seq
+                w[j as usize].begin = e.seq;
+                w[j as usize].caller = e.tid;
             }
             Ev::User(UserEv::BroadcastReturn { j }) if (j as usize) < k => {
                 w[j as usize].ret = Some(e.seq)
@@ -498,13 +537,16 @@ pub fn check_c06(scn: &PoolScn, r: &RunResult, out: &PoolOutcome) -> Vec<Violati
             }
             let be = begins[i][0];
             // (2) thread identity.
-            if i == 0 && be.tid != 0 {
+            if i == 0 && be.tid != w.caller {
                 v.push(Violation::new(
                     "index0_off_caller",
-                    format!("broadcast {j}: index 0 ran on sim thread {}, not the caller", be.tid),
+                    format!(
+                        "broadcast {j}: index 0 ran on sim thread {}, not on the calling thread {}",
+                        be.tid, w.caller
+                    ),
                 ));
             }
-            if i != 0 && be.tid == 0 {
+            if i != 0 && be.tid == w.caller {
                 v.push(Violation::new(
                     "aux_on_caller",
                     format!("broadcast {j}: index {i} ran on the calling thread"),
@@ -593,7 +635,7 @@ pub fn check_c06(scn: &PoolScn, r: &RunResult, out: &PoolOutcome) -> Vec<Violati
                 e.seq > w.begin
                     && e.seq < ret
                     && matches!(e.kind, Ev::Atomic { op: AtomOp::Rmw, new: 0, .. })
-                    && e.tid != 0
+                    && e.tid != w.caller
             });
             if let Some(z) = zero {
                 let (zobj, zaddr) = match z.kind {
@@ -605,7 +647,11 @@ pub fn check_c06(scn: &PoolScn, r: &RunResult, out: &PoolOutcome) -> Vec<Violati
                 let mut closed = [false; dsim::MAX_THREADS];
                 for e in ev.iter().filter(|e| e.seq > z.seq) {
                     let t = e.tid as usize;
-                    if t == 0 || closed[t] {
+                    if e.tid == w.caller || closed[t] {
+                        continue;
+                    }
+                    // Only threads that served this broadcast are of interest.
+                    if !begins.iter().flatten().any(|b| b.tid == e.tid) {
                         continue;
                     }
                     match e.kind {
@@ -639,9 +685,21 @@ pub fn check_c06(scn: &PoolScn, r: &RunResult, out: &PoolOutcome) -> Vec<Violati
         }
 
         // (7) spawn conservation and reuse.
+        // Worker spawns are the spawns performed inside a broadcast by its
+        // caller (helper caller threads are spawned by the scenario itself,
+        // outside any broadcast).
         let spawned = ev
             .iter()
-            .filter(|e| e.seq < ret && matches!(e.kind, Ev::Spawn { .. }))
+            .filter(|e| {
+                e.seq < ret
+                    && matches!(e.kind, Ev::Spawn { .. })
+                    && wins.iter().any(|w2| {
+                        w2.begin != u32::MAX
+                            && e.seq > w2.begin
+                            && w2.ret.map_or(true, |r2| e.seq < r2)
+                            && e.tid == w2.caller
+                    })
+            })
             .count();
         if spawned != max_n_so_far {
             v.push(Violation::new(
@@ -767,7 +825,7 @@ pub fn probes(scn: &PoolScn, r: &RunResult) -> Vec<&'static str> {
         let caller_parks: Vec<&Event> = ev
             .iter()
             .filter(in_win)
-            .filter(|e| e.tid == 0 && matches!(e.kind, Ev::Park { .. }))
+            .filter(|e| e.tid == w.caller && matches!(e.kind, Ev::Park { .. }))
             .collect();
         if caller_parks.is_empty() {
             hits.push("caller_found_zero_without_parking");
@@ -781,7 +839,7 @@ pub fn probes(scn: &PoolScn, r: &RunResult) -> Vec<&'static str> {
             }
             // Count observed by the caller right after waking.
             if let Some(l) = ev.iter().find(|e| {
-                e.seq > p.seq && e.tid == 0 && matches!(e.kind, Ev::Atomic { op: AtomOp::Load, .. })
+                e.seq > p.seq && e.tid == w.caller && matches!(e.kind, Ev::Atomic { op: AtomOp::Load, .. })
             }) {
                 if let Ev::Atomic { old, .. } = l.kind {
                     if old > 0 && l.seq < ret {
@@ -794,7 +852,7 @@ pub fn probes(scn: &PoolScn, r: &RunResult) -> Vec<&'static str> {
         // stale token for the next one.
         let late = ev.iter().any(|e| {
             e.seq > ret
-                && matches!(e.kind, Ev::Unpark { target: 0 })
+                && matches!(e.kind, Ev::Unpark { target } if target == w.caller)
                 && wins.get(j + 1).map_or(true, |nw| e.seq < nw.begin || nw.begin == u32::MAX || {
                     // Unpark belongs to broadcast j if the worker has not
                     // received its next task yet.
@@ -812,6 +870,9 @@ pub fn probes(scn: &PoolScn, r: &RunResult) -> Vec<&'static str> {
     }
     if ev.iter().any(|e| matches!(e.kind, Ev::User(UserEv::TaskPanic { i, .. }) if i > 0)) {
         hits.push("panic_on_worker_index");
+    }
+    if scn.broadcasts.iter().any(|b| b.helper_caller) {
+        hits.push("pool_used_by_another_thread");
     }
     // Reuse after shrink: a broadcast with fewer threads than exist.
     let mut mx = 0;
@@ -846,7 +907,7 @@ impl crate::batch::Case for PoolScn {
         PoolScn::est_len(self)
     }
     fn max_threads(&self) -> usize {
-        self.max_n() + 1
+        self.max_n() + 1 + self.broadcasts.iter().filter(|b| b.helper_caller).count()
     }
     fn run_config(&self, seed: u64, strategy: StrategySpec) -> RunConfig {
         PoolScn::run_config(self, seed, strategy)
